@@ -206,6 +206,21 @@ Section WithEnv.
       end
     end.
 
+  (** the state a second Run of the same application object starts from: the containers as fsm.Parse left them
+      (values written, SetByUser set, ValueSetFromEnv cleared where the line gave a value) *)
+  Definition after_run (i : inited) (opts' args' : list container) : inited :=
+    mkInit opts' args' (i_spec i) (i_start i) (i_graph i).
+
+  (** one command object parsing two lines in turn; the verdict and containers of the second parse.
+      [None]: the first parse ended in a conversion error, after which the library leaves the containers
+      partly filled (not modelled) *)
+  Definition fsm_parse_twice (i : inited) (argv1 argv2 : list str) : option parse_res :=
+    match fsm_parse i argv1 with
+    | PAccept o' a' => Some (fsm_parse (after_run i o' a') argv2)
+    | PConv => None
+    | _ => Some (fsm_parse i argv2)
+    end.
+
   (** * The command tree *)
 
   Inductive cmd :=
